@@ -258,6 +258,12 @@ class Kernel:
         self.fail_at = None     # index (0-based, over SA requests of this step) at which the kernel refuses
         self.n_req = 0
 
+    def _fails(self):
+        """wire-level kernel: is this SA request the one that is refused?"""
+        i = self.n_req
+        self.n_req += 1
+        return bool(self.fail_at is not None and self.fail_at == i)
+
     def _maybe_fail(self, what):
         i = self.n_req
         self.n_req += 1
@@ -317,15 +323,97 @@ class Kernel:
         self.spd.append(rec)
 
 
+class WireSock:
+    """the netlink socket of the WIRE-level kernel: the REAL request builders and reply handling of xfrm.py / netlink.py run (real ctypes,
+    concrete values); the request is decoded with the kernel ABI table, the ghost SAD/SPD is updated, and the kernel's reply is an NLMSG_ERROR
+    message with the request's sequence number, the kernel's own port id and errno 0 (ack), EEXIST (refused NEWSA) or ESRCH (DELSA of an SA
+    that is not there - also the reading of an injected DELSA refusal)"""
+
+    def __init__(self, kernel):
+        self.k = kernel
+        self.reply = b''
+
+    def send(self, data):
+        import struct
+        from . import klayout
+        T = klayout.table()
+        K = T['const']
+        data = bytes(data)
+        ln, ty, fl, seq, pid = struct.unpack_from('=IHHII', data, 0)
+        hl = T['nlmsghdr']['__size']
+        k = self.k
+        err = 0
+        if ty == K['XFRM_MSG_NEWSA']:
+            U, I = T['xfrm_usersa_info'], T['xfrm_id']
+            fam = struct.unpack_from('=H', data, hl + U['family'][0])[0]
+            n = 4 if fam == K['AF_INET'] else 16
+            off = hl + U['id'][0]
+            daddr = ip_address(data[off + I['daddr'][0]:off + I['daddr'][0] + n])
+            spi = data[off + I['spi'][0]:off + I['spi'][0] + 4]
+            proto = data[off + I['proto'][0]]
+            rec = dict(op='NEWSA', spi=spi, dst=daddr, ipsec_proto=proto, raw=data)
+            k.log.append(rec)
+            if k._fails():
+                err = -17
+            else:
+                k.sad[k.key(daddr, proto, spi)] = rec
+        elif ty == K['XFRM_MSG_DELSA']:
+            D = T['xfrm_usersa_id']
+            fam = struct.unpack_from('=H', data, hl + D['family'][0])[0]
+            n = 4 if fam == K['AF_INET'] else 16
+            daddr = ip_address(data[hl + D['daddr'][0]:hl + D['daddr'][0] + n])
+            spi = data[hl + D['spi'][0]:hl + D['spi'][0] + 4]
+            proto = data[hl + D['proto'][0]]
+            k.log.append(dict(op='DELSA', daddr=daddr, proto=proto, spi=spi))
+            key = k.key(daddr, proto, spi)
+            if k._fails() or key not in k.sad:
+                err = -3
+            k.sad.pop(key, None)
+        elif ty == K['XFRM_MSG_FLUSHSA']:
+            k.log.append(dict(op='FLUSHSA'))
+            k.sad.clear()
+        elif ty == K['XFRM_MSG_FLUSHPOLICY']:
+            k.log.append(dict(op='FLUSHPOLICY'))
+            k.spd.clear()
+        elif ty == K['XFRM_MSG_NEWPOLICY']:
+            rec = dict(op='NEWPOLICY', raw=data)
+            k.log.append(rec)
+            k.spd.append(rec)
+        else:
+            err = -95
+        # the kernel answers from ITS port (0 for the kernel itself is what the header says; the socket's own port id is what matters to nobody)
+        self.reply = struct.pack('=IHHII', 36, K['NLMSG_ERROR'], 0, seq, 0x7F000001) + struct.pack('=i', err) + data[:16]
+
+    def recv(self, n):
+        r, self.reply = self.reply, b''
+        return r
+
+    def close(self):
+        pass
+
+
 class KernelSwitch:
     """Xfrm.* are class-level: the switch routes the calls to the kernel of the endpoint that is currently running"""
 
     def __init__(self):
         self.current = None
+        self.orig = None
 
-    def install(self, xfrm_mod):
+    def install(self, xfrm_mod, wire=False):
         X = xfrm_mod.Xfrm
         sw = self
+        names = ('create_sa', 'delete_sa', 'flush_sas', 'flush_policies', 'create_policy', 'send_recv', '_get_socket')
+        if self.orig is None or self.orig[0] is not xfrm_mod:
+            self.orig = (xfrm_mod, {n: X.__dict__[n] for n in names if n in X.__dict__})
+        if wire:
+            # the real request builders and the real reply handling; only the socket is the model
+            for n, f in self.orig[1].items():
+                setattr(X, n, f)
+            for n in names:
+                if n not in self.orig[1] and n in X.__dict__:
+                    delattr(X, n)
+            X._get_socket = classmethod(lambda cls, groups=0: WireSock(sw.current))
+            return
         X.create_sa = classmethod(lambda cls, *a, **k: sw.current.create_sa(*a, **k))
         X.delete_sa = classmethod(lambda cls, *a, **k: sw.current.delete_sa(*a, **k))
         X.flush_sas = classmethod(lambda cls: sw.current.flush_sas())
@@ -598,12 +686,21 @@ def snap_diff(s0, s1):
     return diff, terms
 
 
-def load(shim=True):
-    """fresh import of /repo + C-boundary shims (optional) + environment + kernel ghost"""
+def load(shim=True, wire=False):
+    """fresh import of /repo + C-boundary shims (optional) + environment + kernel ghost (wire=True: the ghost sits behind the netlink socket,
+    the real xfrm.py / netlink.py request builders and error handling run)"""
     mods = common.load_repo(shim=shim)
     install_env(mods)
-    SWITCH.install(mods['xfrm'])
+    SWITCH.install(mods['xfrm'], wire=wire)
+    if wire:
+        wire_env(mods)
     return mods
+
+
+def wire_env(mods):
+    """what netlink.py reads from the process when it builds a request header"""
+    mods['netlink'].os = types.SimpleNamespace(getpid=lambda: 4242, strerror=__import__('os').strerror)
+    mods['netlink'].time = types.SimpleNamespace(time=lambda: 1700000000.0 + ENV.now.ms / 1000.0)
 
 
 # ----------------------------------------------------------------------------- controller level
